@@ -261,6 +261,9 @@ def centertype_case(ctx, rng, wd, i):
         labels = list(range(1, nkeys + 1))
     else:
         labels = [int(v) for v in rng.integers(1, 9, size=nkeys)]        # arbitrary, possibly many-to-one relabelling
+        if rng.random() < 0.4:
+            labels = [int(v) for v in rng.integers(-1, 4, size=nkeys)]   # zero-based molecule species (label 0), also -1: values are just values
+            ctx.count("type_map_with_zero_or_negative_labels")
     moltypes = dict(zip(keys, labels))
     frames = []
     for _ in range(nframes):
